@@ -50,6 +50,18 @@ func (c *vScriptConn) Write(b []byte) (int, error) {
 	case 'c':
 		// the connection was closed on this side (e.g. by the goroutine that reads from it)
 		return 0, &net.OpError{Op: "write", Net: "tcp", Err: net.ErrClosed}
+	case 't':
+		// the peer vanished without a word: the kernel gives up retransmitting, write(2) fails with ETIMEDOUT
+		return 0, &net.OpError{Op: "write", Net: "tcp", Err: os.NewSyscallError("write", syscall.ETIMEDOUT)}
+	case 'r':
+		// the peer reset the connection
+		return 0, &net.OpError{Op: "write", Net: "tcp", Err: os.NewSyscallError("write", syscall.ECONNRESET)}
+	case 'e':
+		// broken pipe
+		return 0, &net.OpError{Op: "write", Net: "tcp", Err: os.NewSyscallError("write", syscall.EPIPE)}
+	case 'd':
+		// a write deadline that expired
+		return 0, &net.OpError{Op: "write", Net: "tcp", Err: os.ErrDeadlineExceeded}
 	}
 	return 0, fmt.Errorf("scripted write failure")
 }
